@@ -184,6 +184,16 @@ func (g *genState) joinOp() map[string]any {
 	}
 	g.features[k] = feats
 	g.live = append(g.live, k)
+	var transport map[string]any
+	if !local && r.Chance(1, 2) {
+		// what a websocket/rawsocket server would pass to AttachClient
+		transport = hcommon.Pick(r, []map[string]any{
+			{"peer": "10.0.0.1:999", "auth": map[string]any{"cookie": "secret", "request": "GET /"}},
+			{"auth": map[string]any{"x": 1}},
+			{"peer": "10.0.0.2:1"},
+		})
+		details["transport"] = transport
+	}
 	realm := "r1"
 	if len(g.realms) > 0 {
 		realm = hcommon.Pick(r, g.realms)
@@ -194,7 +204,11 @@ func (g *genState) joinOp() map[string]any {
 		capacity = 1 + r.Intn(3)
 		g.smallCap[k] = true
 	}
-	return map[string]any{"op": "join", "s": k, "realm": realm, "local": local, "hello": hello, "details": details, "roles": roles, "cap": capacity}
+	op := map[string]any{"op": "join", "s": k, "realm": realm, "local": local, "hello": hello, "details": details, "roles": roles, "cap": capacity}
+	if transport != nil {
+		op["transport"] = transport
+	}
+	return op
 }
 
 func (g *genState) payload() ([]any, map[string]any) {
@@ -233,7 +247,7 @@ func (g *genState) pubOptions() map[string]any {
 	if r.Chance(1, 3) {
 		o["exclude_me"] = hcommon.Pick(r, []any{false, false, true, 0})
 	}
-	if r.Chance(1, 4) {
+	if r.Chance(1, 4) || (g.prop == "C12" && r.Chance(1, 2)) {
 		o["disclose_me"] = hcommon.Pick(r, []any{true, true, false, 1})
 	}
 	if r.Chance(1, 6) {
@@ -440,7 +454,7 @@ func (g *genState) next() map[string]any {
 			}
 			delete(o, "match")
 		}
-		if r.Chance(1, 5) {
+		if r.Chance(1, 5) || (g.prop == "C12" && r.Chance(1, 2)) {
 			o["disclose_caller"] = true
 		}
 		if r.Chance(1, 5) {
@@ -463,7 +477,7 @@ func (g *genState) next() map[string]any {
 		if r.Chance(1, 4) {
 			o["receive_progress"] = hcommon.Pick(r, []any{true, true, false})
 		}
-		if r.Chance(1, 6) {
+		if r.Chance(1, 6) || (g.prop == "C12" && r.Chance(1, 2)) {
 			o["disclose_me"] = true
 		}
 		if r.Chance(1, 5) {
@@ -609,6 +623,9 @@ func (g *genState) metaCall(k int) map[string]any {
 	sel := r.Intn(24)
 	if g.prop == "C20" && r.Chance(2, 3) {
 		sel = 21
+	}
+	if g.prop == "C12" && r.Chance(1, 2) {
+		sel = 3 // wamp.session.get
 	}
 	switch sel {
 	case 0:
